@@ -225,6 +225,16 @@ func suiteRespPath(e *vh.Env) {
 			if rng.Chance(20) {
 				s.hdr = append(s.hdr, [2]string{rng.Pick([]string{"Keep-Alive", "Proxy-Authenticate", "Upgrade"}), "x"})
 			}
+			if rng.Chance(25) {
+				// end-to-end response fields whose names merely resemble hop-by-hop ones (Proxy-Status is RFC 9209)
+				for k := 1 + rng.Intn(2); k > 0; k-- {
+					lk := [][2]string{{"Proxy-Status", "origin-cache; hit"}, {"Proxy-Cache-Info", "stored=1"}, {"Keep-Alive-Hint", "x"}, {"Te-Level", "2"}, {"Trailer-Note", "n"},
+						{"Connection-Id", "c-17"}, {"Transfer-Encoding-Hint", "none"}, {"Upgrade-Available", "h3"}}[rng.Intn(8)]
+					if len(valuesOf(s.hdr, lk[0])) == 0 {
+						s.hdr = append(s.hdr, lk)
+					}
+				}
+			}
 			s.body = rng.Bytes(sizePick(rng, e.Thorough()))
 			if i == 5 || (i == 9 && e.Thorough()) {
 				s.method, s.status = "GET", 200
@@ -245,11 +255,29 @@ func suiteRespPath(e *vh.Env) {
 				}
 				nd := []int{0, 0, 1, 2, 5}[rng.Intn(5)]
 				for k := 0; k < nd; k++ {
-					s.declared = append(s.declared, [2]string{fmt.Sprintf("X-Trailer-%d", k), fmt.Sprintf("tv%d", k)})
+					tn := fmt.Sprintf("X-Trailer-%d", k)
+					if k == 1 && rng.Chance(40) {
+						tn = rng.Pick([]string{"Proxy-Status", "Keep-Alive-Hint", "Te-Level", "Connection-Id"})
+						if len(valuesOf(s.hdr, tn)) > 0 {
+							tn = "X-Trailer-1"
+						}
+					}
+					s.declared = append(s.declared, [2]string{tn, fmt.Sprintf("tv%d", k)})
 				}
 				for k := rng.Intn(3); k > 0 && rng.Chance(40); k-- {
 					s.undecl = append(s.undecl, [2]string{fmt.Sprintf("X-Undeclared-%d", k), "uv"})
 				}
+			}
+			if i%40 == 7 {
+				// a field sent both as a header and, with another value, as a declared trailer
+				if s.chunks == nil {
+					s.chunks = []int{100}
+				}
+				if s.method == "HEAD" || s.status == 204 || s.status == 304 {
+					s.method, s.status = "GET", 200
+				}
+				s.hdr = append(s.hdr, [2]string{"X-Both", "as-header"})
+				s.declared = append(s.declared, [2]string{"X-Both", "as-trailer"})
 			}
 			cs := fmt.Sprintf("resp-%d-%d", e.Seed, i)
 			be.mu.Lock()
@@ -317,6 +345,12 @@ func suiteRespPath(e *vh.Env) {
 			if !nobody && s.chunks != nil {
 				for _, kv := range append(append([][2]string{}, s.declared...), s.undecl...) {
 					got := resp.Trailer[http.CanonicalHeaderKey(kv[0])]
+					if kv[0] == "X-Both" {
+						if len(got) != 1 || got[0] != kv[1] {
+							e.Fail("C03:trailer-altered:same-name-as-header", fmt.Sprintf("%s; the backend sent X-Both: as-header in the header and X-Both: as-trailer as a declared trailer; client received trailer X-Both %q (header %q)", what, got, resp.Header["X-Both"]), i, nil, got, kv[1])
+						}
+						continue
+					}
 					if len(got) != 1 || got[0] != kv[1] {
 						e.Fail("C03:trailer-lost", fmt.Sprintf("%s; trailer %s: client received %q as trailer (as header: %q), backend sent %q", what, kv[0], got, resp.Header[http.CanonicalHeaderKey(kv[0])], kv[1]), i, nil, got, kv[1])
 					}
